@@ -88,3 +88,9 @@ func (bp *BeaconProcess) VerifHandler() *beacon.Handler { return bp.beacon }
 
 // VerifSetGateway sets the gateway the process uses as a client (Status connectivity checks).
 func (bp *BeaconProcess) VerifSetGateway(gw *net.PrivateGateway) { bp.privGateway = gw }
+
+// VerifStateWriteLockUnlock takes and releases bp.state as a writer (what StopBeacon / newBeacon / storeDKGOutput do first).
+func (bp *BeaconProcess) VerifStateWriteLockUnlock() {
+	bp.state.Lock()
+	bp.state.Unlock() //nolint
+}
